@@ -24,7 +24,8 @@ RULE = ("n = 1..12, ASYMMETRIC non-negative flow / distance matrices: random "
         "non-symmetric")
 LEVEL_ASSUMPTIONS = ["oracle: Python big-int double sum"]
 REQUIRED = {"concurrent_qap_evaluations": 2000, "shipped_qaplib_instances": 50,
-            "instances_with_given_bounds": 30, "tag[diagonal-sentinel]": 10, "size_window_instances": 10, "tag[almost-symmetric]": 20, "evaluations": 3000, "dtype_edge_instances": 100,
+            "instances_with_given_bounds": 30, "tag[diagonal-sentinel]": 10, "size_window_instances": 10, "every_facility_count_instances": 80,
+            "calls_on_one_objective_over_a_long_life": 70000, "tag[almost-symmetric]": 20, "evaluations": 3000, "dtype_edge_instances": 100,
             "value_equals_upper_bound": 50, "text_instances": 100,
             "instances_all_perms": 30}
 
@@ -407,12 +408,64 @@ def threads_shard(ctx, args):
                       lambda a, b: a == b, loops=25):
             return
 
+def long_life(ctx, rng):
+    """One objective object over a long life: 70 000 (almost all distinct)
+    permutations, then the first ones again - beyond 2^16 calls."""
+    from moptipyapps.qap.instance import Instance
+    from moptipyapps.qap.objective import QAPObjective
+    n = int(rng.choice([10, 11, 12]))
+    F, D, _tag = gen(rng, n)
+    if trivial(F, D)[1] >= 10 ** 15:
+        return
+    Fa, Da = np.array(F, np.int64), np.array(D, np.int64)
+    o = QAPObjective(Instance(Da, Fa))
+    first = []
+    x = np.arange(n)
+    case = {"kind": "inst", "F": F, "D": D, "df": "int64", "dd": "int64",
+            "lf": "C", "ld": "C", "long_life": True}
+    for k in range(70_000):
+        p = rng.permutation(n)
+        x[:] = p
+        v = o.evaluate(x)
+        want = int((Fa * Da[np.ix_(p, p)]).sum())
+        if k < 300:
+            first.append((p, want))
+        if int(v) != want:
+            ctx.violation("value-differs",
+                          f"call {k + 1} on one objective: {v} for "
+                          f"{p.tolist()}, flow-distance sum {want}", case)
+            return
+    for p, want in first:
+        x[:] = p
+        v = o.evaluate(x)
+        if int(v) != want:
+            ctx.violation("value-differs",
+                          f"{p.tolist()} evaluated again after 70 000 other "
+                          f"calls on the same objective: {v}, flow-distance "
+                          f"sum {want}", case)
+            return
+    ctx.case(70_300)
+    ctx.count("calls_on_one_objective_over_a_long_life", 70_300)
+
+
 def run_shard(ctx, args):
     if args.get("mode") == "threads":
         return threads_shard(ctx, args)
     from moptipyapps.qap.instance import Instance
     rng = ctx.rng
     shipped(ctx, ctx.shard_idx % 4, 4)
+    if ctx.shard_idx % 4 == 0 and ctx.engine == "jit":
+        long_life(ctx, rng)
+    # EVERY facility count up to 132 (this shard's share), not only windows
+    for n in range(13 + ctx.shard_idx % 4, 133, 4):
+        F, D, tag = gen(rng, n)
+        if trivial(F, D)[1] >= 10 ** 15:
+            continue
+        ctx.case()
+        ctx.count("every_facility_count_instances")
+        judge_instance(ctx, Instance(np.array(D), np.array(F)), F, D,
+                       {"kind": "inst", "F": F, "D": D, "df": "int64",
+                        "dd": "int64", "lf": "C", "ld": "C"}, tag, False)
     for it in range(args["n"]):
         n = int(rng.choice([1, 2, 2, 3, 3, 4, 4, 5, 6, 7, 9, 12]))
         if it % 40 == 11:
